@@ -252,3 +252,8 @@ package stats
 //@   ensures window-total: ok && limit > 0 ==> resp.NumDNSQueries == wsum(seqof k int :: (0 <= k && k < limit - 1 ? old(dbN[uid(uint32(s.curr.id - limit + 1), k)]) : (k == limit - 1 ? old(s.curr.nTotal) : 0)), limit)
 //@   ensures disabled: limit == 0 ==> ok && resp.NumDNSQueries == 0 && len(resp.DNSQueries) == 0
 //@   modifies nothing
+
+// the immediately invoked closure of handleStats takes confMu itself; it runs with no lock held
+//@ func (s *StatsCtx) handleStats$1()
+//@   requires nolocks()
+//@   modifies *
